@@ -211,6 +211,11 @@ def StageReference(dataReference,  # type: experiment.model.graph.DataReference
                 dest = os.path.join(dest, destName)
                 shutil.copytree(reference, dest, symlinks=True)
             else:
+                destFile = os.path.join(dest, os.path.split(reference)[1])
+                if os.path.islink(destFile):
+                    # VV: an earlier `link` reference staged something under the same name, copying would write
+                    #     through that link i.e. into the file of some other component
+                    os.remove(destFile)
                 shutil.copy(reference, dest)
         elif dataReference.method == experiment.model.graph.DataReference.Link:
             name = os.path.split(reference)[1]
